@@ -314,8 +314,11 @@ def r6(ctx: RuleCtx) -> None:
                 for t in (n.targets if isinstance(n, ast.Assign) else [n.target]):
                     if isinstance(t, ast.Attribute) and t.attr == 'held_object':
                         writes.append(q)
-    ctx.require(writes == ['ObjectHolder.__init__'], 'held_object is bound only by ObjectHolder.__init__', bm, 'ObjectHolder', f'writers of held_object: {writes}',
-                f'held_object is assigned in {writes}; it must be bound once, by the constructor', bm.cls('ObjectHolder'))
+    extra = [w for w in writes if not _constructor_only(bm, 'ObjectHolder', w)]
+    if not writes:
+        raise Undecided('no assignment of held_object found in baseobjects.py')
+    ctx.require(not extra, 'held_object is bound only by the constructor of ObjectHolder', bm, 'ObjectHolder', f'writers of held_object: {writes}',
+                f'held_object is assigned in {extra}, outside the constructor; it must be bound once, by the constructor', bm.cls('ObjectHolder'))
     # (a') the evaluator
     im = repo.module(IB)
     names = [q for q in im.funcs() if q.startswith('InterpreterBase.') and q.count('.') == 1 and
@@ -347,8 +350,11 @@ def r6(ctx: RuleCtx) -> None:
                     vwr.append(q)
             if isinstance(n, ast.Call) and isinstance(n.func, ast.Attribute) and n.func.attr in MUTATORS and attr_chain(n.func.value) == 'self.variables':
                 vwr.append(q)
-    ctx.require(sorted(set(vwr)) == ['InterpreterBase.__init__', 'InterpreterBase.set_variable'], 'InterpreterBase.variables is written only by __init__ and set_variable', im, 'InterpreterBase',
-                f'writers of self.variables: {sorted(set(vwr))}', f'self.variables is written by {sorted(set(vwr))}', im.cls('InterpreterBase'))
+    others = sorted(w for w in set(vwr) if w != 'InterpreterBase.set_variable' and not _constructor_only(im, 'InterpreterBase', w))
+    if 'InterpreterBase.set_variable' not in vwr:
+        raise Undecided('InterpreterBase.set_variable does not store into self.variables directly')
+    ctx.require(not others, 'InterpreterBase.variables is written only by the constructor and set_variable', im, 'InterpreterBase',
+                f'writers of self.variables: {sorted(set(vwr))}', f'self.variables is also written by {others}, bypassing the checks of set_variable', im.cls('InterpreterBase'))
     # (b) += builds a new holder from the operator result
     arms = dispatch_arms(ctx)
     target = arm_method(arms, 'PlusAssignmentNode')
@@ -407,6 +413,22 @@ def r6(ctx: RuleCtx) -> None:
                 f'assignment distinguishes mutable objects on rows {sorted(map(str, seen))}', ef.fn)
     # (d) holders whose interpreter-visible methods change the held object are marked mutable
     check_mutable_marker(ctx)
+
+
+def _constructor_only(mod: Module, cls: str, qn: str) -> bool:
+    """`qn` is the constructor of `cls`, or a method of it that is called from the constructor and from nowhere else in the class."""
+    if qn == f'{cls}.__init__':
+        return True
+    if not qn.startswith(cls + '.') or qn.count('.') != 1:
+        return False
+    name = qn.split('.')[1]
+    callers = set()
+    for st in mod.cls(cls).body:
+        if isinstance(st, ast.FunctionDef):
+            for c in ast.walk(st):
+                if isinstance(c, ast.Call) and isinstance(c.func, ast.Attribute) and c.func.attr == name and isinstance(c.func.value, ast.Name) and c.func.value.id == 'self':
+                    callers.add(st.name)
+    return callers == {'__init__'}
 
 
 def _self_effects(f: ast.FunctionDef) -> bool:
